@@ -36,9 +36,18 @@ func validDoc(r *run, kind string) *simrt.SimFile {
 		}
 	case "targets-http":
 		for _, s := range firstN(genTargetSpecs(t), 1+t.Choose(3)) {
+			if t.Prob(1, 4) {
+				f.Write([]byte("# a comment\n"))
+			}
 			f.Write([]byte(s.method + " " + s.url + "\n"))
+			if t.Prob(1, 4) {
+				f.Write([]byte("# a comment right after the request line\n"))
+			}
 			for _, kv := range s.hdr {
 				f.Write([]byte(kv[0] + ": " + kv[1] + "\n"))
+				if t.Prob(1, 8) {
+					f.Write([]byte("  # indented comment\n"))
+				}
 			}
 			if s.bodyFile >= 0 {
 				f.Write([]byte("@" + filepath.Join(sandbox, fmt.Sprintf("body%d.bin", s.bodyFile)) + "\n"))
